@@ -86,6 +86,7 @@ def check_calc(mod, tier, seed, extra_modules=()):
             always = mod.runtime_checks() or []
         except Exception as e:
             rep.notes.append(f'runtime_checks crashed: {type(e).__name__}: {e}')
+    always = list(always) + [dict(hostile_environment=f) for f in disturb.FAILS[:3]]
     rep.coverage['runtime_observations_failed'] = len(always)
     for f in always[:3]:
         rep.violation(dict(kind='failing-input', input=f, broken=broken))
